@@ -9,7 +9,7 @@
     (and width and height).  [rinside c p]: rectangle [c] lies inside [p];
     [rdisjoint a b]: [a] and [b] have no common interior point; [roverlap]: they have. *)
 From Coq Require Import List Bool Arith QArith.
-From SR Require Import Base.PathB Model.Recon Model.Branches Model.Layout Proofs.LayoutProofs.
+From SR Require Import Base.PathB Model.Recon Model.Branches Model.Layout Proofs.ReconProofs Proofs.BranchesProofs Proofs.LayoutProofs.
 Import ListNotations.
 Local Open Scope Q_scope.
 
@@ -58,6 +58,36 @@ Theorem C14_trunk_overlap_refuted :
     rinside (l_trunk a) (l_rect a) /\ ~ rinside (l_trunk b) (l_rect b).
 Proof. exact trunk_overlap_refuted. Qed.
 Print Assumptions C14_trunk_overlap_refuted.
+
+(* Every anchor referenced by a drawn branch exists.  In both orientations the anchors and
+   branches of every species of the computed layout (pre-order) are keyed exactly by the
+   anchor set and the branch dict that [_compute_branches] leaves for that species
+   ([keys_at X ops], Model/Branches.v) ... *)
+Theorem C14_layout_keys : forall o P S r sizes t ops,
+  all_ops S r = Some ops -> layout o P S r sizes = Some t ->
+  map key_of_sub (flatten t) = map (fun X => keys_at X ops) (snodes S).
+Proof. exact layout_keys. Qed.
+Print Assumptions C14_layout_keys.
+
+(* ... and for a valid reconciliation every reference made by a branch is to a member of
+   those sets ([branch_refs_ok], theorem C13_anchors_exist). *)
+Theorem C14_anchors_exist : forall o P S O r sizes t,
+  valid_rec S O r -> layout o P S r sizes = Some t ->
+  exists ops, all_ops S r = Some ops /\
+    map key_of_sub (flatten t) = map (fun X => keys_at X ops) (snodes S) /\
+    (forall X b, In b (branches_at X ops) -> branch_refs_ok r ops X b) /\
+    (forall X a, is_anchor X ops a -> In a (fst (keys_at X ops))).
+Proof. exact anchors_exist_layout. Qed.
+Print Assumptions C14_anchors_exist.
+
+(* The layout of a valid reconciliation is defined in both orientations, whatever the
+   parameters and the measured sizes: [_layout_branches] never meets a missing key (every
+   duplication / transfer branch is inserted after the branches it refers to), so the
+   hypotheses [layout ... = Some t] of the theorems above are satisfiable on the whole domain. *)
+Theorem C14_layout_defined : forall o P S O r sizes,
+  valid_rec S O r -> exists t, layout o P S r sizes = Some t.
+Proof. exact layout_defined. Qed.
+Print Assumptions C14_layout_defined.
 
 (* The layout is a function of its inputs (the model has no hidden state; that the
    implementation's second run equals its first is checked by the harness). *)
